@@ -118,9 +118,20 @@ def run_carrier(carrier: str, steps: List[Dict[str, Any]], client_fn: Callable) 
                 if request.method == "GET":
                     es.feed(b"event: endpoint\ndata: /messages/?session_id=s1\n\n")
                     return httpx.Response(200, headers={"content-type": "text/event-stream"}, content=es.gen())
+                i_before = counter["n"]
                 rep = next_reply(json.loads(request.content))
-                for m in rep or []:
-                    es.feed(("event: message\ndata: " + json.dumps(m, ensure_ascii=False) + "\n\n").encode("utf-8"))
+                mode = steps[i_before].get("sse_order", "202-first") if (rep is not None and i_before < len(steps)) else "202-first"
+
+                def emit():
+                    for m in rep or []:
+                        es.feed(("event: message\ndata: " + json.dumps(m, ensure_ascii=False) + "\n\n").encode("utf-8"))
+
+                if mode == "event-first":
+                    # the answer travels on the event stream before the POST is acknowledged
+                    emit()
+                    await asyncio.sleep(0.02)
+                else:
+                    asyncio.get_running_loop().call_later(0.02, emit)
                 return httpx.Response(202)
 
             with install("sse", handler2):
@@ -155,14 +166,20 @@ def check(case: Dict[str, Any]) -> Outcome:
 
         async def client(r, w):
             got: List[Any] = []
-            for rq in reqs:
-                await w.send(parse_message(rq))
-                await asyncio.sleep(0.3)
+            def drain():
                 while True:
                     try:
                         got.append(_norm(r.receive_nowait()))
                     except (anyio.WouldBlock, anyio.EndOfStream, anyio.ClosedResourceError):
                         break
+
+            for rq in reqs:
+                await w.send(parse_message(rq))
+                await asyncio.sleep(0.3)
+                drain()
+            # nothing else may turn up later (e.g. a synthesised timeout for an answered request)
+            await asyncio.sleep(7.0)
+            drain()
             return got
 
         transcripts: Dict[str, Any] = {}
@@ -279,6 +296,7 @@ def cases(draw, mode: str):
             s["code"] = draw(st.sampled_from(CODES))
         else:
             s["reply"] = "result"
+        s["sse_order"] = draw(st.sampled_from(["202-first", "event-first"]))
         if mode == "A":
             s["id"] = draw(st.one_of(st.sampled_from([f"r{k}", f"{100 + k}", f"é{k}"]), st.integers(1, 2**53).map(lambda v, k=k: v * 8 + k)))
         steps.append(s)
